@@ -18,6 +18,7 @@ package simple
 //@   fact forall i in 0..len(tmRuneRanges) :: tmRuneRanges[i].defaultVal < 16 && 0 <= tmRuneRanges[i].lo && tmRuneRanges[i].lo < tmRuneRanges[i].hi
 //@   fact forall i in 0..len(tmRuneRanges) :: forall j in 0..len(tmRuneRanges[i].val) :: tmRuneRanges[i].val[j] < 16
 //@   fact forall i in 0..len(tmRuneRanges)-1 :: tmRuneRanges[i].hi <= tmRuneRanges[i+1].lo
+//@   fact forall i in 0..len(tmRuneRanges) :: forall j in i+1..len(tmRuneRanges) :: tmRuneRanges[i].hi <= tmRuneRanges[j].lo
 
 //@ table tmLexerAction
 //@   fact len(tmLexerAction) == 13 * 16
@@ -31,8 +32,12 @@ package simple
 // mapRune: the class of a rune outside Latin-1, by binary search in tmRuneRanges; always a class.
 //@ func mapRune
 //@   ensures 0 <= result && result < 16
+//@   ensures forall i in 0..len(tmRuneRanges) :: (tmRuneRanges[i].lo <= c && c < tmRuneRanges[i].hi) ==> result == (c - tmRuneRanges[i].lo < len(tmRuneRanges[i].val) ? tmRuneRanges[i].val[c - tmRuneRanges[i].lo] : tmRuneRanges[i].defaultVal)
+//@   ensures (forall i in 0..len(tmRuneRanges) :: !(tmRuneRanges[i].lo <= c && c < tmRuneRanges[i].hi)) ==> result == 1
 //@   loop 1:
 //@     invariant 0 <= lo && lo <= hi && hi <= len(tmRuneRanges)
+//@     invariant forall k in 0..lo :: tmRuneRanges[k].hi <= c
+//@     invariant forall k in hi..len(tmRuneRanges) :: c < tmRuneRanges[k].lo
 //@     decreases hi - lo
 
 // ---- lexer state ----
